@@ -1,6 +1,7 @@
 SPECIFICATION Spec
 INVARIANT Linearized
 INVARIANT SameEvents
+INVARIANT NoSilentCycle
 INVARIANT LabelsAreConsecutive
 INVARIANT AllTargetsExist
 INVARIANT StackBounded
